@@ -16,6 +16,85 @@ func verifAssert(label string, cond bool) {
 func verifCanary(label string, cond bool) {}
 
 // ---------------------------------------------------------------------------
+// C02 (C01, C13, C20): the read side of Buffer. Every reader keeps the representation invariant,
+// never moves backwards, moves by exactly its width or (on a short buffer or after an earlier error)
+// sets/keeps the sticky error and stays where it is, and returns data that lies inside the input.
+// ---------------------------------------------------------------------------
+
+//@ pred bufInv(b *Buffer) := b != nil && 0 <= b.pos && b.pos <= len(b.buf)
+//@ pred bufOK(b *Buffer) := b.err == nil
+
+//@ func (*Buffer).ReadN
+//@   props C02 C13 C20 C01
+//@   requires bufInv(b)
+//@   requires [nonneg] 0 <= n
+//@   assigns b.pos, b.err
+//@   ensures [C02:inv] bufInv(b) && sameslice(b.buf, old(b.buf))
+//@   ensures [C02:sticky] old(b.err) != nil ==> arr(result) == 0 && len(result) == 0 && b.pos == old(b.pos) && b.err == old(b.err)
+//@   ensures [C02:ok] old(b.err) == nil && 0 <= n && n <= len(b.buf) - old(b.pos) ==>
+//@           b.err == nil && b.pos == old(b.pos) + n && len(result) == n &&
+//@           arr(result) == arr(b.buf) && off(result) == off(b.buf) + old(b.pos)
+//@   ensures [C02:short] old(b.err) == nil && n > len(b.buf) - old(b.pos) ==> b.err != nil && arr(result) == 0 && len(result) == 0 && b.pos == old(b.pos)
+//@   canary ensures [C02:canary-always-advances] b.pos == old(b.pos) + n
+
+//@ func (*Buffer).ReadByte
+//@   props C02 C01
+//@   requires bufInv(b)
+//@   assigns b.pos, b.err
+//@   ensures [C02:inv] bufInv(b) && sameslice(b.buf, old(b.buf)) && b.pos >= old(b.pos) && b.pos - old(b.pos) <= 1
+//@   ensures [C02:sticky] old(b.err) != nil ==> result == 0 && b.pos == old(b.pos) && b.err == old(b.err)
+//@   ensures [C02:ok] old(b.err) == nil && len(b.buf) - old(b.pos) >= 1 ==> b.err == nil && b.pos == old(b.pos) + 1 && result == at(b.buf, off(b.buf) + old(b.pos))
+//@   ensures [C02:short] old(b.err) == nil && len(b.buf) - old(b.pos) < 1 ==> b.err != nil && result == 0 && b.pos == old(b.pos)
+
+//@ func (*Buffer).ReadUint16
+//@   props C02 C01
+//@   requires bufInv(b)
+//@   assigns b.pos, b.err
+//@   ensures [C02:inv] bufInv(b) && sameslice(b.buf, old(b.buf)) && b.pos >= old(b.pos) && b.pos - old(b.pos) <= 2
+//@   ensures [C02:sticky] old(b.err) != nil ==> result == 0 && b.pos == old(b.pos) && b.err == old(b.err)
+//@   ensures [C02:ok] old(b.err) == nil && len(b.buf) - old(b.pos) >= 2 ==> b.err == nil && b.pos == old(b.pos) + 2 && result == le16(b.buf, old(b.pos))
+//@   ensures [C02:short] old(b.err) == nil && len(b.buf) - old(b.pos) < 2 ==> b.err != nil && result == 0 && b.pos == old(b.pos)
+
+//@ func (*Buffer).ReadUint32
+//@   props C02 C01
+//@   requires bufInv(b)
+//@   assigns b.pos, b.err
+//@   ensures [C02:inv] bufInv(b) && sameslice(b.buf, old(b.buf)) && b.pos >= old(b.pos) && b.pos - old(b.pos) <= 4
+//@   ensures [C02:sticky] old(b.err) != nil ==> result == 0 && b.pos == old(b.pos) && b.err == old(b.err)
+//@   ensures [C02:ok] old(b.err) == nil && len(b.buf) - old(b.pos) >= 4 ==> b.err == nil && b.pos == old(b.pos) + 4 && result == le32(b.buf, old(b.pos))
+//@   ensures [C02:short] old(b.err) == nil && len(b.buf) - old(b.pos) < 4 ==> b.err != nil && result == 0 && b.pos == old(b.pos)
+
+//@ func (*Buffer).ReadUint64
+//@   props C02 C01
+//@   requires bufInv(b)
+//@   assigns b.pos, b.err
+//@   ensures [C02:inv] bufInv(b) && sameslice(b.buf, old(b.buf)) && b.pos >= old(b.pos) && b.pos - old(b.pos) <= 8
+//@   ensures [C02:sticky] old(b.err) != nil ==> result == 0 && b.pos == old(b.pos) && b.err == old(b.err)
+//@   ensures [C02:ok] old(b.err) == nil && len(b.buf) - old(b.pos) >= 8 ==> b.err == nil && b.pos == old(b.pos) + 8 && result == le64(b.buf, old(b.pos))
+//@   ensures [C02:short] old(b.err) == nil && len(b.buf) - old(b.pos) < 8 ==> b.err != nil && result == 0 && b.pos == old(b.pos)
+
+//@ func (*Buffer).ReadInt32
+//@   props C02 C01
+//@   requires bufInv(b)
+//@   assigns b.pos, b.err
+//@   ensures [C02:inv] bufInv(b) && sameslice(b.buf, old(b.buf)) && b.pos >= old(b.pos) && b.pos - old(b.pos) <= 4
+//@   ensures [C02:sticky] old(b.err) != nil ==> result == 0 && b.pos == old(b.pos) && b.err == old(b.err)
+//@   ensures [C02:ok] old(b.err) == nil && len(b.buf) - old(b.pos) >= 4 ==> b.err == nil && b.pos == old(b.pos) + 4 && uint32(result) == le32(b.buf, old(b.pos))
+//@   ensures [C02:short] old(b.err) == nil && len(b.buf) - old(b.pos) < 4 ==> b.err != nil && result == 0 && b.pos == old(b.pos)
+
+// A length-prefixed byte string: the prefix is consumed; the data (if any) lies inside the input and
+// is at most as long as what remained, so nothing is allocated for it.
+//@ func (*Buffer).ReadBytes
+//@   props C02 C01 C20
+//@   requires bufInv(b)
+//@   assigns b.pos, b.err
+//@   ensures [C02:inv] bufInv(b) && sameslice(b.buf, old(b.buf)) && b.pos >= old(b.pos)
+//@   ensures [C02:sticky] old(b.err) != nil ==> len(result) == 0 && b.pos == old(b.pos) && b.err == old(b.err)
+//@   ensures [C02:inside] len(result) > 0 ==> b.err == nil && arr(result) == arr(b.buf) &&
+//@           off(result) == off(b.buf) + old(b.pos) + 4 && b.pos == old(b.pos) + 4 + len(result)
+//@   ensures [C02:error-nothing] b.err != nil ==> len(result) == 0
+
+// ---------------------------------------------------------------------------
 // NodeID identity as seen by callers (C31, C33): the textual form is an uninterpreted function of the
 // NodeID object (NodeIDs are not mutated by the functions under contract); Equal compares it.
 // ---------------------------------------------------------------------------
